@@ -4,7 +4,7 @@
    DataHeader.asString/recordlen; src/ZODB/FileStorage/FileStorage.py: tpc_vote (layout of a written
    transaction), read_index (the scanner), FileStorageFormatter._read_data_header).
 
-      file        = "FS21" ++ transaction*
+      file        = "FS30" ++ transaction*
       transaction = tid(8) tlen(8) status(1) ulen(2) dlen(2) elen(2) user desc ext record* tlen(8)
       record      = oid(8) tid(8) prev(8) tloc(8) vlen(2)=0 plen(8) (data[plen] | back(8) if plen = 0)
 
@@ -28,7 +28,7 @@ open ZodbModel
 def transHdrLen : Nat := 23          -- TRANS_HDR_LEN
 def dataHdrLen : Nat := 42           -- DATA_HDR_LEN
 def metadataSize : Nat := 4          -- FileStorageFormatter._metadata_size = len(packed_version)
-def magic : Bytes := [70, 83, 50, 49]   -- b"FS21"
+def magic : Bytes := [70, 83, 51, 48]   -- FILESTORAGE_MAGIC = b"FS30" (ZODB._compat, Python 3)
 def stCheckpoint : Nat := 99         -- 'c'
 def stUndone : Nat := 117            -- 'u'
 def stNormal : Nat := 32             -- ' '
